@@ -4,7 +4,8 @@ import fam2, elayer as E, glayer, blayer as B
 from common import Expander
 
 LEVEL = "proof"
-G_UNITS = {"builders": ["build_debug_expr", "build_debug_for_struct", "build_debug_for_enum", "HelperAttributes::is_debug_ignore"]}
+G_UNITS = {"builders": ["build_debug_expr", "build_debug_for_struct", "build_debug_for_enum", "HelperAttributes::is_debug_ignore"],
+           "kinds": ["HelperAttributeKinds::extend"]}      # which helper attributes are read: `debug` iff Debug is among the requested traits, wherever it stands
 
 
 def rejections(ctx, ex):
